@@ -22,6 +22,10 @@ pub enum Entry {
     AlteredSalt(u16),
     AlteredName(u16),
     AlteredValue(u16),
+    /// genuine #i with only the LAST character of its string value changed (everything before it,
+    /// salt and name included, stays byte-identical)
+    #[serde(alias = "AlteredTail")]
+    AlteredTail(u16),
     /// same JSON value as genuine #i, different bytes: 0 = re-serialised without spaces,
     /// 1 = extra whitespace, 2 = a character of the salt written as a \u escape, 3 = array reordered? (not same value; treated as altered)
     Reserialised(u16, u8),
@@ -84,6 +88,21 @@ fn concretise(e: &Entry, genuine: &[String], foreign: &[String], claims: &Value,
             v[last] = json!({"forged": true});
             (re_encode(&v), "altered value")
         }),
+        Entry::AlteredTail(i) => {
+            // every second time the LONGEST genuine disclosure is taken (a tail far from the head)
+            let s = if i % 2 == 0 { genuine.iter().max_by_key(|d| d.len()).cloned()? } else { g(*i)? };
+            let text = String::from_utf8(b64d(&s).ok()?).ok()?;
+            let mut chars: Vec<char> = text.chars().collect();
+            let n = chars.len();
+            // ... x"]  : the value is a string; x must not be part of an escape sequence
+            if n < 6 || chars[n - 1] != ']' || chars[n - 2] != '"' || matches!(chars[n - 3], '"' | '\\') || chars[n - 4] == '\\' {
+                return None;
+            }
+            chars[n - 3] = if chars[n - 3] == 'Z' { 'Y' } else { 'Z' };
+            let new_text: String = chars.into_iter().collect();
+            serde_json::from_str::<Value>(&new_text).ok()?;
+            Some((b64e(new_text.as_bytes()), "altered last character of the value"))
+        }
         Entry::Reserialised(i, kind) => {
             let s = g(*i)?;
             let text = String::from_utf8(b64d(&s).ok()?).ok()?;
@@ -284,7 +303,7 @@ pub fn check(case: &C03Case, st: &mut Stats) -> Verdict {
             if closed.len() != g.len() {
                 st.label("accepted_with_orphan_child");
             }
-            if c != expected {
+            if crate::exact::differs(&c, &expected) {
                 return Err(Failure::new(
                     "disclosures:wrong-claims",
                     format!("the verifier accepted the list but returned claims other than the view over the genuine disclosures present\n  expected: {}\n  got:      {}\n{}", expected, c, describe()),
@@ -296,7 +315,7 @@ pub fn check(case: &C03Case, st: &mut Stats) -> Verdict {
                 match crate::spec::process(&j.payload, &list) {
                     crate::spec::SpecOutcome::Claims(v) => {
                         st.label("spec_model_agrees_checked");
-                        if v != expected {
+                        if crate::exact::differs(&v, &expected) {
                             return Err(Failure::new("harness:model-disagreement", format!("view model and spec model disagree\n  view: {}\n  spec: {}\n{}", expected, v, describe())));
                         }
                     }
@@ -324,7 +343,7 @@ pub fn check(case: &C03Case, st: &mut Stats) -> Verdict {
                 (Out::Ok(c2), _) => {
                     st.label("permutation_accepted");
                     st.nontrivial();
-                    if c2 != expected {
+                    if crate::exact::differs(&c2, &expected) {
                         return Err(Failure::new(
                             "disclosures:order-dependent",
                             format!("the reversed disclosure list is accepted with different claims\n  expected: {}\n  got:      {}\n  presented: {}\n{}", expected, c2, sut::clip(&ptext.unwrap_or_default(), 4000), describe()),
